@@ -223,7 +223,14 @@ func (c *Cache[K, V]) List() map[K]*Item[V] {
 	c.mu.RLock()
 	defer c.mu.RUnlock()
 
-	return c.items
+	// Hand out a copy: the cache's own map keeps being written under the
+	// lock (Set, Update, Delete, cleanup), which the caller does not hold.
+	items := make(map[K]*Item[V], len(c.items))
+	for k, item := range c.items {
+		items[k] = item
+	}
+
+	return items
 }
 
 // Count returns the number of existing items in the cache.
